@@ -351,6 +351,9 @@ func alignExtras(c *Ctx, prop string) {
 			mt = c.randMatrix(al, false, true, -1)
 		}
 		a, b := c.bytesFrom(al, 2+c.rng.Intn(10)), c.bytesFrom(al, 2+c.rng.Intn(10))
+		if i%4 == 3 { // tables of several thousand cells too: what a call keeps for the next may depend on the size
+			a, b = c.bytesFrom(al, 70+c.rng.Intn(40)), c.bytesFrom(al, 70+c.rng.Intn(40))
+		}
 		align.Global(a, b, mt.m)
 		align.Local(a, b, mt.m)
 		// retune values of existing keys in place
@@ -369,6 +372,38 @@ func alignExtras(c *Ctx, prop string) {
 		mt.open = int(mt.m[[2]byte{align.Gap, align.Gap}])
 		mt.desc = "matrix object re-used after in-place edits of its values"
 		alignCase(c, prop, mt, a, b, "retuned")
+	}
+	// (2b) matrices that are not square: the second sequence has letters (N, X) that have a column but no row
+	for i := 0; i < c.n(24); i++ {
+		rows := []byte("ACGT")[:2+c.rng.Intn(3)]
+		cols := append(append([]byte(nil), rows...), []byte("NX")[:1+c.rng.Intn(2)]...)
+		if i%3 == 2 { // the extra letters sort BEFORE the row letters
+			cols = append([]byte("*-")[:1+c.rng.Intn(2)], rows...)
+		}
+		m := align.SubstitutionMatrix{}
+		for _, x := range rows {
+			for _, y := range cols {
+				m[[2]byte{x, y}] = float64(c.rng.Intn(9) - 4)
+				if x == y {
+					m[[2]byte{x, y}] = float64(1 + c.rng.Intn(5))
+				}
+			}
+			m[[2]byte{x, align.Gap}] = -float64(c.rng.Intn(4))
+		}
+		for _, y := range cols {
+			m[[2]byte{align.Gap, y}] = -float64(c.rng.Intn(4))
+		}
+		open := 0
+		if prop == "C08" {
+			open = -c.rng.Intn(3)
+		}
+		m[[2]byte{align.Gap, align.Gap}] = float64(open)
+		la, lb := 3+c.rng.Intn(12), 3+c.rng.Intn(12)
+		if i%2 == 1 {
+			la, lb = 40+c.rng.Intn(50), 40+c.rng.Intn(50)
+		}
+		mt := imat{m, cols, open, fmt.Sprintf("rows over %q, columns over %q", rows, cols)}
+		alignCase(c, prop, mt, c.bytesFrom(rows, la), c.bytesFrom(cols, lb), "non-square")
 	}
 	// (3) large integer scores (exact in float64, not in float32)
 	for i := 0; i < c.n(40); i++ {
